@@ -21,9 +21,9 @@ func LoadNodePositionDataIntoArray(m *Metadata, buf []byte, positions []vector3.
 			for i := 0; i < len(positions); i++ {
 				positions[i] = vector3.
 					New(
-						int(endian.Uint32(buf[pointOffset:])),
-						int(endian.Uint32(buf[pointOffset+4:])),
-						int(endian.Uint32(buf[pointOffset+8:])),
+						int(int32(endian.Uint32(buf[pointOffset:]))),
+						int(int32(endian.Uint32(buf[pointOffset+4:]))),
+						int(int32(endian.Uint32(buf[pointOffset+8:]))),
 					).
 					ToFloat64().
 					MultByVector(scale).
